@@ -24,6 +24,8 @@ def main():
     ap.add_argument("patch"); ap.add_argument("demo"); ap.add_argument("prop")
     ap.add_argument("--skip-tests", action="store_true"); ap.add_argument("--also", default="")
     ap.add_argument("--tier", default="quick"); ap.add_argument("--seed", default="1")
+    ap.add_argument("--scratch", action="store_true", help="run the checks against the patched scratch worktree (OQ_VERIF_ROOT) instead of applying the patch to /repo; allows parallel screening")
+    ap.add_argument("--cores", default="16")
     a = ap.parse_args()
     patch, demo = os.path.abspath(a.patch), os.path.abspath(a.demo)
     out = {"patch": patch, "property": a.prop}
@@ -53,9 +55,27 @@ def main():
             missing = [t for t in base if t not in passed]
             out["tests_newly_failing"] = missing[:10]
             out["tests_ok"] = not missing
+        if a.scratch:
+            results = {}
+            rd = tempfile.mkdtemp(prefix="oq-seedrep-")
+            for prop in [a.prop] + [p for p in a.also.split(",") if p]:
+                env = dict(os.environ, VERIF_NO_EVIDENCE="1", VERIF_REPLAY_DIR=rd, VERIF_SEED=a.seed, OQ_VERIF_ROOT=wt, VERIF_CORES=a.cores)
+                r = sh([PY, os.path.join(VERIF, "check.py"), prop, "--tier", a.tier], env=env, cwd=VERIF)
+                viol = [l for l in r.stdout.splitlines() if l.startswith("VIOLATION")]
+                subs = sorted({l.strip().split(":")[0] for l in r.stdout.splitlines() if l.strip().startswith("subcheck=")})
+                first = next((l.strip() for l in r.stdout.splitlines() if l.strip().startswith("subcheck=")), "")
+                results[prop] = {"exit": r.returncode, "violations": len(viol), "subchecks": subs, "first": first[:300],
+                                 "stderr": r.stderr[-300:] if r.returncode == 2 else ""}
+            shutil.rmtree(rd, ignore_errors=True)
+            out["checks"] = results
+            out["mode"] = "scratch"
+            out["detected"] = any(v["exit"] == 1 and v["violations"] for v in results.values())
     finally:
         sh(f"git -C /repo worktree remove --force {wt}")
         shutil.rmtree(wt, ignore_errors=True)
+    if a.scratch:
+        print(json.dumps(out))
+        return 0
     # the checks, against /repo itself
     results = {}
     rd = tempfile.mkdtemp(prefix="oq-seedrep-")
